@@ -345,6 +345,16 @@ func Special(a int, b int, s string, xs []int) int {
 		return specialHeader() + fmt.Sprintf("func Special(a int, b int, s string, xs []int) int {\n\tif a > %d {\n\t\tif b > a {\n\t\t\treturn %s\n\t\t}\n\t\treturn %s\n\t}\n\treturn a ^ b\n}\n", k1, x, y)
 	}
 	out = append(out, special{Name: "exchanged-inner-returns", Family: "exchanged-branches", P: ret3(false), Q: ret3(true)})
+	// a comparison kept in a variable and branched on in a LATER block (after a loop): the opposite test
+	// with the SAME arms is another function
+	held := func(op string) string {
+		return specialHeader() + fmt.Sprintf("func Special(a int, b int, s string, xs []int) int {\n\tok := a %s b\n\tt := 0\n\tfor i := 0; i < len(xs); i++ {\n\t\tt += xs[i]\n\t}\n\tif ok {\n\t\treturn t + %d\n\t}\n\treturn t - len(s)\n}\n", op, k1)
+	}
+	out = append(out, special{Name: "held-comparison-opposite-test-same-arms", Family: "exchanged-branches", P: held(">="), Q: held("<")})
+	heldStr := func(op string) string {
+		return specialHeader() + fmt.Sprintf("func Special(a int, b int, s string, xs []int) int {\n\tlater := s %s \"m\"\n\tt := a\n\tif b > %d {\n\t\tt += b\n\t}\n\tif later {\n\t\treturn t * 2\n\t}\n\treturn t + 1\n}\n", op, k1)
+	}
+	out = append(out, special{Name: "held-string-comparison-opposite-test-same-arms", Family: "exchanged-branches", P: heldStr(">"), Q: heldStr("<=")})
 	// a side effect moved to the other arm: same call, same operands, other branch
 	eff := func(other bool) string {
 		arms := "\tif a > b {\n\t\tnote(a)\n\t}\n"
